@@ -358,3 +358,66 @@ Proof.
   - eapply holds_same_out; eauto. unfold lenZ. rewrite dp_enc_len by auto. simpl. lia.
   - eapply holds_same_out; eauto. unfold lenZ; simpl. lia.
 Qed.
+
+(* the four writes of ADFI_write_data_chunk at linear addresses *)
+Lemma four_puts d a t1 enc so cb data t2 n :
+  0 <= a -> length t1 = 4%nat -> length enc = 12%nat -> length t2 = 4%nat ->
+  0 <= so -> lenZ data <= n -> so + n <= cb ->
+  let d' := dput (dput (dput (dput d a t1) (a + 4) enc) (a + 16 + so) data) (a + 16 + cb) t2 in
+  holds d' a t1 /\ holds d' (a + 4) enc /\ holds d' (a + 16 + so) data /\ holds d' (a + 16 + cb) t2 /\
+  (forall x, ~ (a <= x < a + 16) -> ~ (a + 16 + so <= x < a + 16 + so + n) -> ~ (a + 16 + cb <= x < a + 16 + cb + 4) ->
+             dget d' x = dget d x).
+Proof.
+  intros Ha L1 L2 L3 Hso Hn Hcb d'. pose proof (lenZ_nonneg data) as Hd0.
+  assert (E1 : lenZ t1 = 4) by (unfold lenZ; rewrite L1; reflexivity).
+  assert (E2 : lenZ enc = 12) by (unfold lenZ; rewrite L2; reflexivity).
+  assert (E3 : lenZ t2 = 4) by (unfold lenZ; rewrite L3; reflexivity).
+  subst d'. repeat split.
+  - repeat (apply holds_dput_other; [lia| |lia]). apply holds_dput_same; lia.
+  - repeat (apply holds_dput_other; [lia| |lia]). apply holds_dput_same; lia.
+  - apply holds_dput_other; [lia| |lia]. apply holds_dput_same; lia.
+  - apply holds_dput_same; lia.
+  - intros x H1 H2 H3. rewrite !dget_dput by lia. rewrite E1, E2, E3.
+    repeat match goal with |- context [Z.leb ?u ?v] => destruct (Z.leb_spec u v) end;
+    repeat match goal with |- context [Z.ltb ?u ?v] => destruct (Z.ltb_spec u v) end; simpl; auto; lia.
+Qed.
+
+Lemma addr_unfold p : addr p = fst p * DBS + snd p.
+Proof. reflexivity. Qed.
+
+Lemma gp_nonneg p : gp p -> 0 <= fst p /\ 0 <= snd p /\ 0 <= addr p < 2 ^ 44.
+Proof. intros G. pose proof (gp_addr p G). destruct G as [[? ?] [? ?]]. auto. Qed.
+
+Lemma pow_facts : 2 ^ 44 + 2 ^ 41 < 2 ^ 60 /\ 2 ^ 44 + 2 ^ 41 < 2 ^ 64 /\ 0 < 2 ^ 40 /\ 2 ^ 40 * 2 = 2 ^ 41 /\ 2 ^ 44 = 2 ^ 32 * 4096.
+Proof. repeat split; reflexivity. Qed.
+
+Lemma wdc_some d p cb so n bs :
+  gp p -> 0 < cb < 2 ^ 40 -> 0 <= so -> 0 <= n -> so + n <= cb ->
+  exists d', write_data_chunk cf fa d p cb so n (Some bs) = (Ok tt, d') /\
+    holds d' (addr p) tag_DaTa /\ holds d' (addr p + 4) (dp_enc fa (pnorm (addr p + HDR + cb))) /\
+    holds d' (addr p + HDR + cb) tag_dEnD /\
+    holds d' (addr p + HDR + so) (firstn (Z.to_nat n) bs) /\
+    (forall x, ~ (addr p <= x < addr p + HDR) -> ~ (addr p + HDR + so <= x < addr p + HDR + so + n) ->
+               ~ (addr p + HDR + cb <= x < addr p + HDR + cb + 4) -> dget d' x = dget d x).
+Proof.
+  intros G Hcb Hso Hn Hle. destruct (gp_nonneg p G) as (Hb & Ho & Ha). pose proof pow_facts as (P1 & P2 & P3 & P4 & P5).
+  pose proof (addr_unfold p) as Ea.
+  unfold write_data_chunk. destruct (Z.gtb_spec (n + so) cb); [lia|].
+  unfold TAG_SIZE, DPS. rewrite adjust_ok by lia. cbn [bindO].
+  rewrite adjust_ok by lia. cbn [bindO].
+  replace (fst p * DBS + (snd p + 4)) with (addr p + 4) by (rewrite addr_unfold; ring).
+  replace (fst p * DBS + (snd p + 4 + 12 + cb)) with (addr p + HDR + cb) by (rewrite addr_unfold; unfold HDR; ring).
+  assert (Hcl : 0 <= fst (pnorm (addr p + 4)) /\ 0 <= snd (pnorm (addr p + 4))).
+  { unfold pnorm, DBS; simpl. lia. }
+  pose proof (addr_pnorm (addr p + 4)) as Ecl. rewrite addr_unfold in Ecl.
+  rewrite adjust_ok by lia.
+  cbn [bindO].
+  replace (fst (pnorm (addr p + 4)) * DBS + (snd (pnorm (addr p + 4)) + so + 12)) with (addr p + HDR + so)
+    by (unfold HDR; lia).
+  eexists. split; [reflexivity|]. unfold wr. rewrite !addr_pnorm.
+  assert (Hlen : lenZ (firstn (Z.to_nat n) bs) <= n) by (pose proof (lenZ_firstn_le bs (Z.to_nat n)); lia).
+  destruct (four_puts d (addr p) tag_DaTa (dp_enc fa (pnorm (addr p + HDR + cb))) so cb (firstn (Z.to_nat n) bs) tag_dEnD n
+              (proj1 Ha) eq_refl (dp_enc_len fa _ Hfa) eq_refl Hso Hlen Hle) as (F1 & F2 & F3 & F4 & F5).
+  unfold HDR in *.
+  split; [exact F1|split; [exact F2|split; [exact F4|split; [exact F3|exact F5]]]].
+Qed.
